@@ -8,6 +8,7 @@ pub mod fvec;
 pub mod tv;
 pub mod acc;
 pub mod ivec;
+pub mod mt;
 pub mod swz_gen;
 
 use serde_json::{json, Value};
